@@ -23,6 +23,8 @@ LEVEL_TEXT = {
             "text": "bounded symbolic execution of the real validate_and_store_record / payment_for_us_exists_and_is_still_valid / ProofOfPayment::verify_for / PaymentQuote::{check_is_signed_by_claimed_peer, has_expired}: every combination of the payment conditions on 1..2 quotes, symbolic quote timestamps against a symbolic clock; 'stored only if all seven conditions hold' and 'otherwise rejected, nothing stored' are discharged per path"},
     "C04": {"engine": "symrt (engine D)", "technique": D_TECH, "note": D_NOTE,
             "text": "the three acceptance paths of put_validation.rs executed for every record kind under the content-derived key and under a foreign key: a foreign key is rejected and the store is unchanged"},
+    "C05": {"engine": "symrt (engine D)", "technique": D_TECH, "note": D_NOTE,
+            "text": "one-step inductive symbolic execution of the real quorum accumulation code over symbolic peer and content identities: from any pending read that satisfies the invariant, every reply or terminating event either keeps the invariant or delivers exactly one outcome per caller; a value only with a quorum of distinct peers for identical content that equals the expected value; split reads carry every version"},
     "C06": {"engine": "symrt (engine D)", "technique": D_TECH, "note": D_NOTE + "; the order/duplication part of the quantifier is explored by choice forks (exhaustive within the bound), the solver's share is the two numeric limits",
             "text": "the whole ant-registers crate transplanted and executed: entry size and entry count are symbolic so that add_op / verify / merge limit consistency is decided for all counts and sizes; authorisation of operations through add_op and verified_merge for every signer / signature / address combination; merge laws and convergence over all delivery orders of a 3-operation pool"},
     "C07": {"engine": "symrt (engine D)", "technique": D_TECH, "note": D_NOTE,
